@@ -271,6 +271,18 @@ async fn peer_writer(
                 writer = None;
                 None
             }
+            Op::BadCmd { lane, body } => Some(RequestMessage::command(id, RelativeAddress::new(NODE_URI, lane.as_str()), body.as_bytes())),
+            Op::TornCmd { lane, body, keep_pm } => {
+                if let Some(mut w) = writer.take() {
+                    buf.clear();
+                    enc.encode(RequestMessage::command(id, RelativeAddress::new(NODE_URI, lane.as_str()), body.as_bytes()), &mut buf)
+                        .expect("encode");
+                    let keep = ((buf.len() as u64 * *keep_pm as u64) / 1000).clamp(1, buf.len() as u64 - 1) as usize;
+                    let _ = w.write_all(&buf[..keep]).await;
+                    // The write half is dropped here: the agent sees the end of the stream inside a frame.
+                }
+                None
+            }
             Op::Sleep { ms } => {
                 shared.borrow_mut().sleeping = true;
                 tokio::time::sleep(Duration::from_millis(*ms)).await;
